@@ -336,9 +336,10 @@ func (ctl *Control) worker() {
 	}
 
 	for _, pxy := range ctl.proxies {
+		verifhook.At("ctl.teardown.proxy.begin", "ctl", verifhook.ID(ctl), "run_id", ctl.loginMsg.RunID, "name", pxy.GetName())
 		pxy.Close()
 		ctl.pxyManager.Del(pxy.GetName())
-		verifhook.At("ctl.teardown.proxy", "ctl", verifhook.ID(ctl), "name", pxy.GetName())
+		verifhook.At("ctl.teardown.proxy", "ctl", verifhook.ID(ctl), "run_id", ctl.loginMsg.RunID, "name", pxy.GetName())
 		metrics.Server.CloseProxy(pxy.GetName(), pxy.GetConfigurer().GetBaseConfig().Type)
 
 		notifyContent := &plugin.CloseProxyContent{
@@ -493,31 +494,32 @@ func (ctl *Control) RegisterProxy(pxyMsg *msg.NewProxy) (remoteAddr string, err 
 	if ctl.serverCfg.MaxPortsPerClient > 0 {
 		ctl.mu.Lock()
 		if ctl.portsUsedNum+pxy.GetUsedPortsNum() > int(ctl.serverCfg.MaxPortsPerClient) {
-			verifhook.At("ctl.quota", "ctl", verifhook.ID(ctl), "name", pxyMsg.ProxyName, "ok", false, "used", ctl.portsUsedNum, "w", pxy.GetUsedPortsNum())
+			verifhook.At("ctl.quota", "ctl", verifhook.ID(ctl), "run_id", ctl.loginMsg.RunID, "name", pxyMsg.ProxyName, "ok", false, "used", ctl.portsUsedNum, "w", pxy.GetUsedPortsNum())
 			ctl.mu.Unlock()
 			err = fmt.Errorf("exceed the max_ports_per_client")
 			return
 		}
 		ctl.portsUsedNum += pxy.GetUsedPortsNum()
-		verifhook.At("ctl.quota", "ctl", verifhook.ID(ctl), "name", pxyMsg.ProxyName, "ok", true, "used", ctl.portsUsedNum, "w", pxy.GetUsedPortsNum())
+		verifhook.At("ctl.quota", "ctl", verifhook.ID(ctl), "run_id", ctl.loginMsg.RunID, "name", pxyMsg.ProxyName, "ok", true, "used", ctl.portsUsedNum, "w", pxy.GetUsedPortsNum())
 		ctl.mu.Unlock()
 
 		defer func() {
 			if err != nil {
 				ctl.mu.Lock()
 				ctl.portsUsedNum -= pxy.GetUsedPortsNum()
-				verifhook.At("ctl.quota.rollback", "ctl", verifhook.ID(ctl), "name", pxyMsg.ProxyName, "used", ctl.portsUsedNum)
+				verifhook.At("ctl.quota.rollback", "ctl", verifhook.ID(ctl), "run_id", ctl.loginMsg.RunID, "name", pxyMsg.ProxyName, "used", ctl.portsUsedNum)
 				ctl.mu.Unlock()
 			}
 		}()
 	}
 
 	if ctl.pxyManager.Exist(pxyMsg.ProxyName) {
-		verifhook.At("ctl.exist.refuse", "ctl", verifhook.ID(ctl), "name", pxyMsg.ProxyName)
+		verifhook.At("ctl.exist.refuse", "ctl", verifhook.ID(ctl), "run_id", ctl.loginMsg.RunID, "name", pxyMsg.ProxyName)
 		err = fmt.Errorf("proxy [%s] already exists", pxyMsg.ProxyName)
 		return
 	}
 
+	verifhook.At("ctl.exist.pass", "ctl", verifhook.ID(ctl), "run_id", ctl.loginMsg.RunID, "name", pxyMsg.ProxyName)
 	remoteAddr, err = pxy.Run()
 	if err != nil {
 		return
@@ -535,7 +537,7 @@ func (ctl *Control) RegisterProxy(pxyMsg *msg.NewProxy) (remoteAddr string, err 
 
 	ctl.mu.Lock()
 	ctl.proxies[pxy.GetName()] = pxy
-	verifhook.At("ctl.insert", "ctl", verifhook.ID(ctl), "name", pxy.GetName())
+	verifhook.At("ctl.insert", "ctl", verifhook.ID(ctl), "run_id", ctl.loginMsg.RunID, "name", pxy.GetName())
 	ctl.mu.Unlock()
 	return
 }
@@ -555,7 +557,7 @@ func (ctl *Control) CloseProxy(closeMsg *msg.CloseProxy) (err error) {
 	pxy.Close()
 	ctl.pxyManager.Del(pxy.GetName())
 	delete(ctl.proxies, closeMsg.ProxyName)
-	verifhook.At("ctl.closeproxy.end", "ctl", verifhook.ID(ctl), "name", closeMsg.ProxyName, "used", ctl.portsUsedNum)
+	verifhook.At("ctl.closeproxy.end", "ctl", verifhook.ID(ctl), "run_id", ctl.loginMsg.RunID, "name", closeMsg.ProxyName, "used", ctl.portsUsedNum)
 	ctl.mu.Unlock()
 
 	metrics.Server.CloseProxy(pxy.GetName(), pxy.GetConfigurer().GetBaseConfig().Type)
